@@ -21,6 +21,10 @@ def streams():
     z2 = (c.compress(b'compressed message two ' * 20) + c.flush(zlib.Z_SYNC_FLUSH))[:-4]
     s4 = ref.server_frame(1, z1[:10], fin=0, rsv1=1) + ref.server_frame(9, b'p') + ref.server_frame(0, z1[10:], fin=1) + ref.server_frame(2, z2, rsv1=1) + ref.server_frame(1, b'plain')
     out.append(('permessage-deflate: fragmented compressed text, compressed binary, plain text', s4, b'Sec-WebSocket-Extensions: permessage-deflate\r\n', dict(compress=True)))
+    out.append(('invalid: a truncated multi-byte sequence directly followed by ASCII inside ONE text frame, then a Ping and a text',
+                ref.server_frame(1, b'\xe2\x82abc') + ref.server_frame(9, b'p') + ref.server_frame(1, b'after'), b'', {}))
+    out.append(('invalid: truncated sequence at the end of a non-final fragment, ASCII in the next fragment, Ping between',
+                ref.server_frame(1, b'ok\xe2\x82', fin=0) + ref.server_frame(9, b'p') + ref.server_frame(0, b'abc', fin=1) + ref.server_frame(1, b'after'), b'', {}))
     big = bytes((i * 7 + 3) % 256 for i in range(20000))
     out.append(('a 20 000-byte binary message coalesced with the handshake reply (more than the 16 KiB header limit in one read)',
                 ref.server_frame(2, big) + ref.server_frame(1, b'after') + ref.server_frame(8, struct.pack('!H', 1000)), b'', {}))
